@@ -268,7 +268,33 @@ fn hvar_event(rng: &mut Rng, rep: &mut Report) -> Option<Value> {
         };
         probes.push(json!({"coords": pc, "adv": a, "lsb": b}));
     }
-    Some(json!({"op": "hvar", "ng": ng, "long": metrics[..nlong].iter().map(|m| vec![m.0 as i64, m.1 as i64]).collect::<Vec<_>>(), "lsbs": metrics[nlong..].iter().map(|m| m.1).collect::<Vec<_>>(),
+    // the same font with the advance map's mapCount set to 0 (no entry to fall back on): the advances are those of hmtx
+    let mut empty_adv: Vec<Vec<i64>> = vec![];
+    if mode != 2 {
+        let off = be32(8);
+        let mut hb = hvar_bytes.clone();
+        let n = if hb[off] == 0 { 2 } else { 4 };
+        for b in hb[off + 2..off + 2 + n].iter_mut() {
+            *b = 0;
+        }
+        let opts = SynthOpts { metrics: metrics.clone(), num_long_metrics: Some(nlong as u16), extra: vec![(Tag::new(b"HVAR"), hb), (Tag::new(b"fvar"), write_fonts::dump_table(&fvar).unwrap())], ..Default::default() };
+        let font2 = truetype_font(&glyphs, &opts).ok()?;
+        let f2 = read_fonts::FontRef::new(&font2).ok()?;
+        for c in [-4i32, 2, 4] {
+            let mut l = Location::new(axes);
+            for x in l.coords_mut().iter_mut() {
+                *x = F2Dot14::from_bits((c * Q) as i16);
+            }
+            match guarded(|| { let gm = GlyphMetrics::new(&f2, Size::unscaled(), &l); (0..ng as u32).map(|g| gm.advance_width(font_types::GlyphId::new(g)).map(|v| v as i64).unwrap_or(-1)).collect::<Vec<i64>>() }) {
+                Ok(a) => empty_adv.push(a),
+                Err(p) => {
+                    rep.violation(&format!("GlyphMetrics panicked on an HVAR whose advance map has mapCount 0: {p}"), case);
+                    return None;
+                }
+            }
+        }
+    }
+    Some(json!({"op": "hvar", "ng": ng, "empty_adv": empty_adv, "long": metrics[..nlong].iter().map(|m| vec![m.0 as i64, m.1 as i64]).collect::<Vec<_>>(), "lsbs": metrics[nlong..].iter().map(|m| m.1).collect::<Vec<_>>(),
         "adv_sets": adv_sets, "lsb_sets": lsb_sets, "regions": regions, "datas": datas, "adv_map": adv_map, "lsb_map": lsb_map, "probes": probes}))
 }
 
